@@ -47,6 +47,9 @@ TYPED = (
     "ATTACH;ENCODING=BASE64;VALUE=BINARY:AAECAw==", "DTSTAMP:20240301T083000Z", "CREATED:20240301T083000Z", "COMPLETED:20240301T083000Z",
     "SUMMARY:\u00a0edge blanks\u2003", "X-A;P=\u00a0v\u00a0:\u00a0", "DESCRIPTION;ALTREP=\"\u00a0x\":\tTabbed\t", "COMMENT:e\u0301 combining \ufeff", "SUMMARY:\ufeffstarts with U+FEFF", "URL:\ufeffhttp://x",
     "REQUEST-STATUS:2.0\\;Success", "CLASS:PUBLIC", "UNKNOWN-IANA-PROP;X=1:some text", "X-EMPTY:", "ACKNOWLEDGED:20240301T083000Z",
+    # years that need zero padding, the last representable second
+    "DTSTART;VALUE=DATE:09990704", "DTSTART;VALUE=DATE:00120101", "DTSTART:08001225T093000", "DTSTAMP:09990102T030405Z",
+    "RDATE;VALUE=DATE:09990704,00120301", "DTEND:99991231T235959Z", "RRULE:FREQ=YEARLY;UNTIL=09991231T000000Z",
 )
 MENU40 = (
     "COMMENT:one", "COMMENT:two", "comment:three", "Comment;LANGUAGE=en:four", "COMMENT;X-P=1:", "COMMENT:0",
